@@ -9,6 +9,7 @@ Commands (JSON lists):
   ['w', answer]                  answer the transport call the worker is parked in
   ['take']                       take_notification(block=False)
   ['close']                      session.close() from a client thread
+  ['ltrap']                      install a listener that issues the session's first request from inside the dispatch of a notification
 """
 import threading
 import time
@@ -334,6 +335,27 @@ class Runner:
             self.rpcs.append(t)
             self.req_status.append('trap')
             self.lines.append('ss op cNew %d' % n)
+        elif k == 'ltrap':
+            # a listener owned by the harness: while the worker is dispatching the first <notification> to the listeners, it issues the
+            # session's FIRST request (which installs the reply listener), i.e. an application thread doing so at that very moment
+            from ncclient.transport.session import SessionListener
+            runner = self
+
+            class LTrap(SessionListener):
+                fired = False
+
+                def callback(self, root, raw):
+                    tag = root[0] if isinstance(root, tuple) else root
+                    if not LTrap.fired and str(tag).endswith('}notification'):
+                        LTrap.fired = True
+                        runner.ltrap_fired = True
+                        runner.ltrap_fired_now = True
+                        runner._inner_request()
+
+                def errback(self, ex):
+                    pass
+            self.ltrap_fired = False
+            s.add_listener(LTrap())
         elif k == 'w':
             kind = self.ctl.parked[0]
             a = cmd[1]
@@ -361,8 +383,15 @@ class Runner:
                     data = bytes.fromhex(a)
                     for m in cmd[2] if len(cmd) > 2 else []:
                         self.classify(m)
+                    at = len(self.lines)
                     self.lines.append('ss op wRead ' + hexb(data))
                     self.ctl.answer(data)
+                    if getattr(self, 'ltrap_fired_now', False):
+                        # the request was issued from INSIDE the dispatch of a message of this read, i.e. before the worker came back
+                        # to the top of its loop: in the model it precedes the read step (it commutes with the dispatch itself)
+                        self.ltrap_fired_now = False
+                        self.lines[at:at] = self.pending_lines
+                        self.pending_lines = []
             elif kind == 'close':
                 self.lines.append('ss op wCloseSelf')
                 self.ctl.answer(None)
